@@ -430,6 +430,9 @@ const (
 	ValidationStateValid ValidationState = iota
 	ValidationStateInvalid
 	ValidationStateUnknown
+	// A valid path that isn't a closed loop of at least 3 points, and so
+	// can't be the boundary of an area.
+	ValidationStateValidButNotForArea
 )
 
 type Validator struct {
@@ -453,6 +456,9 @@ func (v *Validator) ValidatePath(p *ingest.GenericFeature, fs []ingest.Feature) 
 	if err := ingest.ValidatePath(p, &o, v.locations); err == nil {
 		fs = append(fs, p)
 		state = ValidationStateValid
+		if p.GeometryLen() < 3 || !p.AllTags().ClosedPath() {
+			state = ValidationStateValidButNotForArea
+		}
 	} else {
 		state = ValidationStateInvalid
 		log.Printf("ValidatePath: drop invalid path: %s", err)
@@ -488,7 +494,7 @@ func (v *Validator) validateArea(a *ingest.AreaFeature) ValidationState {
 		if ids, ok := a.PathIDs(i); ok {
 			for _, id := range ids {
 				if s, ok := v.paths[id]; ok {
-					if s == ValidationStateInvalid {
+					if s == ValidationStateInvalid || s == ValidationStateValidButNotForArea {
 						state = ValidationStateInvalid
 					} else if s == ValidationStateUnknown && state == ValidationStateValid {
 						state = ValidationStateUnknown
